@@ -258,6 +258,21 @@ class ShardCtx:
                     raise
                 self.notes.append(f"{check_name}: budget exhausted in round {rnd} after {self.evaluations} evaluations")
                 break
+            except hypothesis.errors.Flaky:
+                # A case violated the property once and passed (or failed differently) when Hypothesis ran the very same
+                # case again: the code under test is not a function of its inputs there (wall clock, leaked state). The
+                # violation was observed against the real code by the same oracle and is journalled; it is reported with
+                # that remark instead of being turned into a harness error.
+                new = [b for b in self.failures if b not in suppressed]
+                for b in new:
+                    e = self.failures[b]
+                    if not e.get("flaky"):
+                        e["flaky"] = True
+                        e["message"] += " [the same case did not fail the same way when it was run again: behaviour depends on something other than the inputs]"
+                    suppressed.add(b)
+                if not new:
+                    raise
+                continue
             except PropertyViolation as v:
                 # the exception Hypothesis re-raises comes from its final replay of the minimal case
                 last = self._journal.get(v.bucket)
